@@ -74,7 +74,12 @@ def wait_until(pred, what, timeout=15.0):
         if pred():
             return
         time.sleep(0.003)
-    raise InternalError("timed out waiting for " + what)
+    raise Stuck(what)
+
+
+class Stuck(Exception):
+    """something the server must get done did not happen within the time allowed (a background save that never ends,
+    a gate never reached): an outcome of the code under test, reported as an oracle failure of the part that waited"""
 
 
 def score_text(bits):
@@ -735,13 +740,23 @@ class C10:
         r = Rng(seed)
         samples = self.samples(r.fork("samples"))
         files = []
+        def part(label, fn):
+            try:
+                return fn()
+            except Stuck as e:
+                self.fail("part %s: timed out waiting for %s (a save that fails or is disturbed must still end and clear bgsave_in_progress)" % (label, e),
+                          {"kind": "stuck", "part": label, "waiting_for": str(e)})
+                self.rep.count("stuck." + label.split(":")[0])
+                if self.srv is not None:
+                    self.srv.stop()
+                    self.srv = None
         for i, (name, ds) in enumerate(samples):
-            self.part_a(name, ds, quick)
-            files.append(self.file("dump.rdb"))
-        self.part_a("no-previous-dump", samples[1][1], quick, start_absent=True)
-        self.part_b(r.fork("B"), quick)
-        self.part_c()
-        self.part_e(quick)
+            part("A:" + name, lambda: self.part_a(name, ds, quick))
+            files.append(self.file("dump.rdb") if self.srv is not None else None)
+        part("A:no-previous-dump", lambda: self.part_a("no-previous-dump", samples[1][1], quick, start_absent=True))
+        part("B", lambda: self.part_b(r.fork("B"), quick))
+        part("C", lambda: self.part_c())
+        part("E", lambda: self.part_e(quick))
         # three small valid dumps: three databases, all six types, and one string key with a TTL
         srv, c = self.fresh_server()
         c.cmd("SET", b"k", b"v", "PX", str(LONG))
